@@ -46,31 +46,22 @@ error InvalidParameter (parameter: string)
 
 def consts : Consts := { serviceDesc := serviceDescText }
 
-def vtestDescText : String :=
-"# test interface served through the *generated* dispatch code
-interface org.example.vtest
-
-type Rec (a: int, b: ?string)
-
-method Echo(token: string, n: int) -> (token: string, n: int)
-
-method Stream(token: string, n: int) -> (token: string, i: int)
-
-method Fail(token: string) -> ()
-
-method Opt(token: string, r: ?Rec) -> (token: string, r: ?Rec)
-
-method NoArgs() -> ()
-
-error Boom (token: string)
-"
-
 def parseIface : Sx → Option Iface
   | .list [.atom "script", n, d] => do
     let n ← asStr n
     let d ← asStr d
     pure (scriptIface n d)
-  | .list [.atom "gen"] => some (vtestIface vtestDescText)
+  | .list [.atom "script-avail", n, d] => do
+    -- same interface; its upgraded handler returns after every available segment (socket suites)
+    let n ← asStr n
+    let d ← asStr d
+    pure (scriptIface n d)
+  | .list [.atom "gen", n, d] => do
+    let n ← asStr n
+    let d ← asStr d
+    if n == vtestName then pure (vtestIface d)
+    else if n == crlfName then pure (crlfIface d)
+    else none
   | _ => none
 
 def parseSvc : Sx → Option Service
@@ -169,7 +160,7 @@ def modelCalls (svc : Service) (fs : List Frame) (n : Nat) : List (String × Str
       | some i =>
         if i == svcName then none
         else match svc.lookup i with
-          | some ifc => if ifc.name == vtestName then none else some (ifc.name, ifc.desc, r)
+          | some ifc => if ifc.name == vtestName || ifc.name == crlfName then none else some (ifc.name, ifc.desc, r)
           | none => none
       | none => none
     | .bad => none
@@ -246,7 +237,14 @@ def cfgOfSx : Sx → Option WireCfg
         let n ← asStr n
         let d ← asStr d
         pure ("script", n, d)
-      | Sx.list [Sx.atom "gen"] => some ("gen", vtestName, vtestDescText)
+      | Sx.list [Sx.atom "script-avail", n, d] => do
+        let n ← asStr n
+        let d ← asStr d
+        pure ("script", n, d)
+      | Sx.list [Sx.atom "gen", n, d] => do
+        let n ← asStr n
+        let d ← asStr d
+        pure ("gen", n, d)
       | _ => none
     pure { vendor := v, product := p, version := ver, url := u, ifaces := is }
   | _ => none
